@@ -17,9 +17,12 @@ import vcommon
 from vcommon import VERIF, REPO
 
 # files whose theorems are the obligations (all audited with `#print axioms`)
-PROPS = ["Bee2V/C06/Props.lean", "Bee2V/C06/PropsGen.lean", "Bee2V/C06/PropsUn.lean", "Bee2V/C06/PropsAddJ.lean",
+PROPS = ["Bee2V/C06/Props.lean", "Bee2V/C06/PropsGen.lean", "Bee2V/C06/PropsGen2.lean", "Bee2V/C06/PropsUn.lean", "Bee2V/C06/PropsAddJ.lean",
          "Bee2V/C06/PropsAddAJ.lean", "Bee2V/C06/PropsTpl.lean", "Bee2V/C06/PropsAA.lean", "Bee2V/C06/PropsSWU.lean",
-         "Bee2V/C06/PropsMul.lean", "Bee2V/C06/PropsSim.lean", "Bee2V/C06/PropsTop.lean"]
+         "Bee2V/C06/PropsMul.lean", "Bee2V/C06/PropsSim.lean", "Bee2V/C06/PropsTop.lean",
+         # stage 2: ec2.c over any field of characteristic 2
+         "Bee2V/C06/PropsBUn.lean", "Bee2V/C06/PropsBAdd.lean", "Bee2V/C06/PropsBAddA.lean", "Bee2V/C06/PropsBAA.lean",
+         "Bee2V/C06/PropsTop2.lean"]
 TARGETS = [r[:-5].replace("/", ".") for r in PROPS]
 
 
@@ -30,6 +33,7 @@ def regen(ctx):
     import x_c06_ecp
     importlib.reload(x_c06_ecp)
     ctx.regen("Bee2V/Gen/C06Ecp.lean", x_c06_ecp.generate())
+    ctx.regen("Bee2V/Gen/C06Ec2.lean", x_c06_ecp.generate_ec2())
 
 
 # ----------------------------------------------------------------------------- reference group law (oracle)
@@ -650,6 +654,34 @@ def gen_ec2(ctx, quick):
     return ops
 
 
+def gen_ec2_unreduced(ctx):
+    """finding C06-F2 (docs/C06.fix-2.diff): coordinates of degree m (not field elements) must be rejected by ec2IsOnA"""
+    import random
+    rng = random.Random(5)
+    ops = []
+    for fld in BIN_FIELDS[:3]:
+        f = GF2(fld[0], fld[1:])
+        tok = "b:%d:%d:%d:%d" % fld
+        x0, y0 = f.red(1 << f.m), rng.getrandbits(f.m)
+        B = f.mul(y0, y0) ^ f.mul(x0, y0) ^ f.mul(f.mul(x0, x0), x0 ^ 1)
+        ops.append("ison %s 1 %x %x %x" % (tok, B, x0, y0))
+        ops.append("ison %s 1 %x %x %x" % (tok, B, 1 << f.m, y0))
+        y1, x1 = f.red(1 << f.m), rng.getrandbits(f.m) | 1
+        B2 = f.mul(y1, y1) ^ f.mul(x1, y1) ^ f.mul(f.mul(x1, x1), x1 ^ 1)
+        ops.append("ison %s 1 %x %x %x" % (tok, B2, x1, 1 << f.m))
+    return ops
+
+
+def gf2IsIn_unfixed():
+    """True while include/bee2/math/gf2.h still has the integer comparison in gf2IsIn (fix-2 not applied)"""
+    try:
+        src = open(os.path.join(REPO, "include/bee2/math/gf2.h")).read()
+    except OSError:
+        return False
+    m = re.search(r"#define gf2IsIn\(a, f\)\\\n([^\n]*)", src)
+    return bool(m) and "wwCmp(a, (f)->mod, (f)->n) < 0" in m.group(1)
+
+
 CORPUS = [
     # textbook curve y^2 = x^3 + x + 1 over F_23 (order 28): P + Q, 2P, 28P = O
     "add 17 1 1 n 3 a 1 9 7 1", "dbl 17 1 1 ca 3 a 1", "mul 17 1 1 3 a 1c 1", "mul 17 1 1 3 a 1d 1",
@@ -729,18 +761,27 @@ def run(ctx):
         md, _, _ = ctx.diff_run(exed, CORPUS + ops[len(CORPUS):: (17 if quick else 7)], "ec-differential-assert-build")
         mism += md
         ops = ops + ops32
-    # ec2.c: implementation vs Python reference (no Lean model yet)
+    # ec2.c (Lopez-Dahab): differential against the Lean model (Ec2.lean + gf2Fld) and, independently of the model,
+    # against the Python reference on the ASSERT-enabled build
     ops2 = gen_ec2(ctx, quick)
+    if gf2IsIn_unfixed():
+        ctx.notes.append("finding C06-F2 pending: gf2IsIn compares with the modulus as integers, ec2IsOnA accepts coordinates of degree m; "
+                         "fix in docs/C06.fix-2.diff; the witness lines are generated as soon as gf2.h no longer has that comparison")
+        ctx.cov["pending_fix"] = "docs/C06.fix-2.diff"
+    else:
+        ops2 = gen_ec2_unreduced(ctx) + ops2
+    if os.path.exists(ctx.driver()):
+        m2, _, _ = ctx.diff_run(exe, ops2, "ec2-differential")
+        mism += m2
     bad2 = []
-    for cfg2 in ("asan", "asan-dbg"):
-        out2, err2, rc2 = ctx.run_lines(ctx.cc("harness/c06.c", cfg2), ops2)
-        for i, o in enumerate(ops2):
-            got = out2[i] if i < len(out2) else "CRASH(rc=%d): %s" % (rc2, err2.strip().split("\n")[-1][:200])
-            if got != expect(o):
-                bad2.append((o, got, expect(o)))
-                if i >= len(out2):
-                    break
-    ctx.cov["ops_ec2_reference_only"] = 2 * len(ops2)
+    out2, err2, rc2 = ctx.run_lines(ctx.cc("harness/c06.c", "asan-dbg"), ops2)
+    for i, o in enumerate(ops2):
+        got = out2[i] if i < len(out2) else "CRASH(rc=%d): %s" % (rc2, err2.strip().split("\n")[-1][:200])
+        if got != expect(o):
+            bad2.append((o, got, expect(o)))
+            if i >= len(out2):
+                break
+    ctx.cov["ops_ec2_reference"] = len(ops2)
     ctx.samples.append(ops2[0])
     hist = {}
     for o in ops:
